@@ -321,3 +321,40 @@ def parse_nlist(out):
     if not m:
         raise RuntimeError("cannot parse Coq output: " + out[-500:])
     return [int(x) for x in re.findall(r"\d+", m.group(1))]
+
+
+def coq_stage(rp, targets, props, theorems, full=None, inst_names=()):
+    """make the instance targets, compile the property file capturing Print Assumptions, record the
+    obligations.  Returns (ok_inst, ok_props, full_ok, logs)."""
+    ok_inst, log_inst = coq_make(targets)
+    ok_props, out_props, err_props = (False, "", "")
+    if ok_inst:
+        ok_props, out_props, err_props = coqc_file(props)
+    full_ok = None
+    if full and ok_inst:
+        full_ok, out_full, err_full = coqc_file(full)
+        if full_ok:
+            out_props += out_full
+    for n in inst_names:
+        rp.obligation(n, ok_inst, "" if ok_inst else log_inst[-300:])
+    for n in theorems:
+        rp.obligation(n, ok_props, "" if ok_props else (err_props or log_inst)[-300:])
+    if full:
+        rp.cov["full_strength_theorem_checked"] = bool(full_ok)
+    asm = parse_assumptions(out_props)
+    names = list(theorems) + (["(full strength)"] if full_ok else [])
+    rp.cov["assumptions"] = {(names[i] if i < len(names) else k): v for i, (k, v) in enumerate(asm.items())}
+    rp.cov["checker_cmd"] = "make -C coq -j16 %s && coqc -R theories GV %s" % (" ".join(targets), props)
+    bad = grep_forbidden()
+    rp.obligation("no Admitted/admit/Axiom/Parameter/guard switches in coq/theories", not bad, "; ".join(bad)[:300])
+    if bad:
+        rp.violation({"kind": "proof", "detail": bad}, "forbidden_constructs", no_input=True)
+    return ok_inst, ok_props, full_ok, {"inst": log_inst, "props": err_props}
+
+
+def stage_fail(rp, e):
+    rp.obligation("staging:" + e.stage, False, e.detail)
+    rp.violation({"kind": "correspondence", "broken": "stage " + e.stage, "detail": e.detail,
+                  "note": "the harness/translator no longer builds or runs against the tree; the tie between model and code cannot be checked"},
+                 "stage_" + e.stage, no_input=True)
+    return rp.finish()
